@@ -241,6 +241,7 @@ class Net:
         self.rng = chk.rng
         self.counterexamples = 0
         self.disagreements = []
+        self.chain_conv = {}
 
     # ---- helpers
     def lean_arel(self, rep, m, s, port):
@@ -419,6 +420,208 @@ class Net:
                      'TwoPort%sModel.%sparams does not describe the port relation of the two-port' % (st.rep, P),
                      lcapy=[fstr(v) for v in got], port=[fstr(v) for v in port],
                      spec='rel %s m p holds but rel %s (lcapy result) p fails' % (st.rep, P))
+
+    # ---- K: constructors of the model classes
+    def case_ctor(self, case):
+        """case: {'stream': 'ctor', 'class': N, 'short': bool, 'entries': [v|None x4], 'sources': [v|None x2],
+                  'zero': 'int'|'sympy'|'lcapy', 'matrix_arg': bool, 'rhs': [r1, r2]}"""
+        L, S = self.L, self.L.sympy
+        N = case['class']
+        ents = [None if v is None else Fraction(v) for v in case['entries']]
+        srcs = [None if v is None else Fraction(v) for v in case['sources']]
+        zk = case['zero']
+        self.chk.count('ctor', '%s zero=%s%s%s' % (N, zk, ' omitted-entry' if None in ents else '',
+                                                  ' matrix-arg' if case.get('matrix_arg') else ''))
+
+        def arg(v):
+            if v is None:
+                return None
+            if v == 0:
+                if zk == 'int':
+                    return 0
+                if zk == 'sympy':
+                    return S.S.Zero
+                import lcapy
+                return lcapy.expr(0)
+            return srat(L, v)
+        cls = getattr(L.tp, ('TP%s' if case.get('short') else 'TwoPort%sModel') % N)
+        o1, o2 = OFFSET[N]
+        kw = {k: arg(v) for k, v in zip((o1, o2), srcs) if v is not None}
+        try:
+            if case.get('matrix_arg'):
+                mat = getattr(L.tp, N + 'Matrix')(((arg(ents[0]), arg(ents[1])), (arg(ents[2]), arg(ents[3]))))
+                obj = cls(mat, **kw)
+            else:
+                obj = cls(*[arg(v) for v in ents], **kw)
+            P = obj.params
+            got = []
+            for i in (0, 1):
+                for j in (0, 1):
+                    e = P[i, j]
+                    e = e.sympy if hasattr(e, 'sympy') else S.sympify(e)
+                    got.append('sym' if e.free_symbols else fstr(L.tofrac(e, {})))
+            for k in (0, 1):
+                e = obj.sources[k]
+                e = e.sympy if hasattr(e, 'sympy') else S.sympify(e)
+                got.append('sym' if e.free_symbols else fstr(L.tofrac(e, {})))
+        except Exception as e:   # noqa
+            self.chk.count('lcapy-error', 'ctor:%s:%s' % (N, type(e).__name__))
+            self.chk.case(('ctor', json.dumps(case, sort_keys=True)), False)
+            return
+        # model: the generated defaulting rule (sources default to 0, entries to a free symbol)
+        r = self.drv.ask1('tpn.ctor %s %s' % (N, ' '.join('none' if v is None else fstr(v) for v in ents + srcs)))
+        if r in ('unknown-def', 'bad-op'):
+            self.chk.count('model', r)
+        else:
+            mod = r.split()
+            mod = mod[:4] + ['0' if t == 'sym' else t for t in mod[4:]]
+            self.chk.coverage['correspondence']['compared'] += 1
+            if mod != got:
+                self.chk.coverage['correspondence']['disagreements'] += 1
+                self.disagreements.append({'what': 'TwoPort%sModel.__init__' % N, 'case': case, 'lcapy': got, 'model': mod})
+        self.chk.case(('ctor', json.dumps(case, sort_keys=True)), True)
+        # oracle: the defining equation with the GIVEN entries must hold for the object's reported matrix
+        want = ['sym' if v is None else fstr(v) for v in ents] + [fstr(v or Fraction(0)) for v in srcs]
+        if got == want:
+            if None not in ents:
+                m = ents
+                sv = [v or Fraction(0) for v in srcs]
+                rhs = [Fraction(v) for v in case['rhs']]
+                lhs = mulv(m, rhs)
+                port = port_from_lin(N, (lhs[0] + sv[0], lhs[1] + sv[1]), rhs, Fraction(1))
+                if not self.lean_arel(N, m, sv, port) or not self.lean_arel(N, [Fraction(v) for v in got[:4]],
+                                                                             [Fraction(v) for v in got[4:]], port):
+                    raise common.Infra('ctor stream: identical entries but Lean arel disagrees')
+            return
+        # entries differ: exhibit a port of the SPECIFIED two-port that the reported matrix does not admit
+        # (a substituted free symbol is given the value 1, any value would do)
+        m = [v if v is not None else Fraction(1) for v in ents]
+        sv = [v or Fraction(0) for v in srcs]
+        gm = [Fraction(1) if t == 'sym' else Fraction(t) for t in got[:4]]
+        gs = [Fraction(1) if t == 'sym' else Fraction(t) for t in got[4:]]
+        for rhs in ([Fraction(v) for v in case['rhs']], [Fraction(1), Fraction(0)], [Fraction(0), Fraction(1)], [Fraction(0), Fraction(0)]):
+            lhs = mulv(m, rhs)
+            port = port_from_lin(N, (lhs[0] + sv[0], lhs[1] + sv[1]), rhs, Fraction(1))
+            if not self.lean_arel(N, m, sv, port):
+                raise common.Infra('ctor stream: generated port outside arel %s' % N)
+            if not self.lean_arel(N, gm, gs, port):
+                self.cex({'kind': 'ctor', 'class': N}, case,
+                         '%s(...) does not keep the entries it is given (a numeric zero / given value is replaced)' % cls.__name__,
+                         given=want, lcapy=got, port=[fstr(v) for v in port],
+                         spec='arel %s (given entries) p holds but arel %s (object.params, object.sources; free symbols := 1) p fails' % (N, N))
+                return
+        self.cex({'kind': 'ctor', 'class': N}, case, '%s(...) reports entries different from those given' % cls.__name__,
+                 given=want, lcapy=got)
+
+    # ---- M: matrix-level chain with an argument of another representation
+    def case_chain_mixed(self, case):
+        """case: {'stream': 'chain-mixed', 'class': 'A'|'B', 'method': 'chain'|'cascade', 'a': [...], 'b_rep': X,
+                  'b': [...] (the A resp. B matrix of the second stage), 'Z0': z, 'drive': [x, y]}"""
+        L = self.L
+        C, X, meth = case['class'], case['b_rep'], case['method']
+        a = [Fraction(v) for v in case['a']]
+        b = [Fraction(v) for v in case['b']]
+        Z0 = Fraction(case['Z0'])
+        subs = {'Z_0': srat(L, Z0)}
+        self.chk.count('chain-mixed', '%sMatrix.%s(%sMatrix)' % (C, meth, X))
+        try:
+            MB = getattr(L.make(C, b), X + 'params')
+            bx = L.mat(MB, subs)
+            if not finite(bx):
+                self.chk.count('degenerate', 'chain-mixed-arg-not-finite')
+                return
+            R = getattr(L.make(C, a), meth)(MB)
+            got = L.mat(R, subs)
+            rtype = type(R).__name__
+        except Exception as e:   # noqa
+            self.chk.count('lcapy-error', 'chain-mixed:%s' % type(e).__name__)
+            self.chk.case(('chain-mixed', C, X, tuple(a), tuple(b)), False)
+            return
+        if not finite(got):
+            self.chk.count('degenerate', 'chain-mixed-not-finite')
+            self.chk.case(('chain-mixed', C, X, tuple(a), tuple(b)), False)
+            return
+        # model: generated X_to_C (if the generated chain converts its argument) then C_chain
+        conv = case.get('_conv')
+        arg = bx
+        if conv and conv.get(C) == C + 'params':
+            r = self.drv.ask1('tp.conv %s_to_%s %s %s' % (X, C, ' '.join(fstr(v) for v in bx), fstr(Z0)))
+            arg = None if r in ('unknown-def', 'bad-op') or 'undef' in r else [Fraction(t) for t in r.split()]
+        if arg is not None:
+            r = self.drv.ask1('tp.chain %s_%s %s %s' % (C, meth, ' '.join(fstr(v) for v in a), ' '.join(fstr(v) for v in arg)))
+            if r not in ('unknown-def', 'bad-op') and 'undef' not in r:
+                self.chk.coverage['correspondence']['compared'] += 1
+                if [Fraction(t) for t in r.split()] != got:
+                    self.chk.coverage['correspondence']['disagreements'] += 1
+                    self.disagreements.append({'what': '%s_%s(%s)' % (C, meth, X), 'case': case, 'lcapy': [fstr(v) for v in got], 'model': r})
+        # oracle: a cascaded port.  second stage: spec relation of ITS representation with ITS matrix
+        x, y = [Fraction(v) for v in case['drive']]
+        if C == 'A':
+            q = port_from_lin(X, mulv(bx, (x, y)), (x, y), Z0)
+            if not self.lean_rel(X, bx, Z0, q):
+                raise common.Infra('chain-mixed: generated port outside rel %s' % X)
+            V1, I1 = mulv(a, (q[0], q[1]))          # (V1, I1) = A (V2, -I2) with V2 = q.V1, -I2 = q.I1
+            p = (V1, I1, q[0], -q[1])
+        else:
+            V2, mI2 = mulv(a, (x, y))               # (V2, -I2) = B (V1, I1)
+            p = (x, y, V2, -mI2)
+            qb = mulv(b, (V2, mI2))                  # the second stage through its B matrix (only to GENERATE q)
+            q = (V2, mI2, qb[0], -qb[1])
+            if not self.lean_rel(X, bx, Z0, q):
+                self.chk.count('degenerate', 'chain-mixed-second-stage-conversion-wrong')   # conversion oracle's business
+                return
+        if not self.lean_rel(C, a, Z0, p):
+            raise common.Infra('chain-mixed: first-stage port outside rel %s' % C)
+        whole = (p[0], p[1], q[2], q[3])
+        self.chk.case(('chain-mixed', C, meth, X, tuple(a), tuple(b), x, y), True)
+        if rtype != C + 'Matrix' or not self.lean_rel(C, got, Z0, whole):
+            self.cex({'kind': 'chain-mixed', 'class': C}, case,
+                     '%sMatrix.%s(<%sMatrix>) does not carry the cascaded port (the argument is not converted)' % (C, meth, X),
+                     argument=[fstr(v) for v in bx], lcapy=[fstr(v) for v in got], result_class=rtype,
+                     port=[fstr(v) for v in whole],
+                     spec='rel %s a p, rel %s b q, Cascade p q r hold (Lean) but rel %s (lcapy result) r fails' % (C, X, C))
+
+    # ---- mutation of a matrix after a conversion was taken (no stale caches)
+    def case_stale(self, case):
+        """case: {'stream': 'stale-cache', 'class': X, 'matrix': [...], 'index': [i, j], 'value': v, 'Z0': z, 'rhs': [..]}"""
+        L = self.L
+        X = case['class']
+        m = [Fraction(v) for v in case['matrix']]
+        i, j = case['index']
+        v = Fraction(case['value'])
+        Z0 = Fraction(case['Z0'])
+        subs = {'Z_0': srat(L, Z0)}
+        m2 = list(m)
+        m2[2 * i + j] = v
+        self.chk.count('stale-cache', X)
+        try:
+            M = L.make(X, m)
+            for P in REPS:                      # take every conversion once
+                try:
+                    getattr(M, P + 'params')
+                except Exception:   # noqa
+                    pass
+            M[i, j] = srat(L, v)
+        except Exception as e:   # noqa
+            self.chk.count('lcapy-error', 'stale:%s' % type(e).__name__)
+            return
+        rhs = [Fraction(t) for t in case['rhs']]
+        port = port_from_lin(X, mulv(m2, rhs), rhs, Z0)
+        if not self.lean_rel(X, m2, Z0, port):
+            raise common.Infra('stale stream: generated port outside rel %s' % X)
+        self.chk.case(('stale-cache', X, tuple(m), i, j, v), True)
+        for P in REPS:
+            try:
+                got = L.mat(getattr(M, P + 'params'), subs)
+            except Exception:   # noqa
+                continue
+            if not finite(got):
+                continue
+            if not self.lean_rel(P, got, Z0, port):
+                self.cex({'kind': 'stale-cache', 'class': X, 'to': P}, case,
+                         '%sMatrix.%sparams after M[%d, %d] = %s still describes the matrix before the assignment' % (X, P, i, j, fstr(v)),
+                         lcapy=[fstr(t) for t in got], port=[fstr(t) for t in port],
+                         spec='rel %s (mutated matrix) p holds but rel %s (lcapy result) p fails' % (X, P))
 
     # ---- S: sources / X-model conversions
     def case_sources(self, case):
@@ -628,6 +831,46 @@ class Net:
                 case = {'stream': 'model-equation', 'stage': st.asdict(), 'to': P,
                         'known': {kn[0]: fstr(rand_q(rng)), kn[1]: fstr(rand_q(rng, nz=False))}}
                 self.guard(self.case_model_equation, case)
+        # K: constructors (zero entries of three kinds, omitted arguments, matrix argument)
+        k = 0
+        for N in MREPS:
+            for zk in ('int', 'sympy', 'lcapy'):
+                for rep_ in range(1 if quick else 4):
+                    ents = [rand_q(rng) for _ in range(4)]
+                    for z in rng.sample(range(4), rng.randint(1, 2)):
+                        ents[z] = Fraction(0)
+                    srcs = [rng.choice([None, Fraction(0), rand_q(rng)]) for _ in range(2)]
+                    case = {'stream': 'ctor', 'class': N, 'short': bool(k % 2), 'zero': zk, 'matrix_arg': False,
+                            'entries': [fstr(v) for v in ents], 'sources': [None if v is None else fstr(v) for v in srcs],
+                            'rhs': [fstr(rand_q(rng)), fstr(rand_q(rng))]}
+                    k += 1
+                    self.guard(self.case_ctor, case)
+            ents = [rand_q(rng) for _ in range(4)]
+            om = [None if (i in rng.sample(range(1, 4), rng.randint(1, 2))) else fstr(v) for i, v in enumerate(ents)]
+            self.guard(self.case_ctor, {'stream': 'ctor', 'class': N, 'short': True, 'zero': 'int', 'matrix_arg': False,
+                                        'entries': om, 'sources': [None, fstr(rand_q(rng))], 'rhs': ['1', '2']})
+            ents[rng.randrange(4)] = Fraction(0)
+            self.guard(self.case_ctor, {'stream': 'ctor', 'class': N, 'short': False, 'zero': 'sympy', 'matrix_arg': True,
+                                        'entries': [fstr(v) for v in ents], 'sources': [fstr(rand_q(rng)), None],
+                                        'rhs': [fstr(rand_q(rng)), fstr(rand_q(rng))]})
+        # M: AMatrix / BMatrix .chain / .cascade with an argument of every representation
+        for C in 'AB':
+            for X in (REPS if C == 'A' else MREPS):
+                for rep_ in range(1 if quick else 4):
+                    case = {'stream': 'chain-mixed', 'class': C, 'method': rng.choice(['chain', 'cascade']), 'b_rep': X,
+                            'a': [fstr(v) for v in rand_stage(rng, sources=False).m],
+                            'b': [fstr(v) for v in rand_stage(rng, sources=False).m],
+                            'Z0': fstr(Fraction(rng.randint(1, 9), rng.randint(1, 4))),
+                            'drive': [fstr(rand_q(rng)), fstr(rand_q(rng, nz=False))], '_conv': self.chain_conv}
+                    self.guard(self.case_chain_mixed, case)
+        # stale caches
+        for X in REPS:
+            for rep_ in range(1 if quick else 3):
+                case = {'stream': 'stale-cache', 'class': X, 'matrix': [fstr(v) for v in rand_stage(rng, sources=False).m],
+                        'index': [rng.randrange(2), rng.randrange(2)], 'value': fstr(rand_q(rng)),
+                        'Z0': fstr(Fraction(rng.randint(1, 9), rng.randint(1, 4))),
+                        'rhs': [fstr(rand_q(rng)), fstr(rand_q(rng))]}
+                self.guard(self.case_stale, case)
         # N
         for N in MREPS:
             for P in REPS:
@@ -693,7 +936,8 @@ class Net:
             self.chk.count('timeout', case.get('stream', '?'))
 
     def replay(self, case, routes):
-        fn = {'equation': self.case_equation, 'params': self.case_params, 'model-equation': self.case_model_equation, 'sources': self.case_sources,
+        fn = {'equation': self.case_equation, 'params': self.case_params, 'ctor': self.case_ctor,
+              'chain-mixed': self.case_chain_mixed, 'stale-cache': self.case_stale, 'model-equation': self.case_model_equation, 'sources': self.case_sources,
               'cascade': self.case_cascade, 'connection': self.case_connection,
               'pivot': lambda c: self.case_pivot(c, routes)}.get(case.get('stream'))
         if fn is None:
